@@ -1,4 +1,4 @@
-import Sx.Api
+import Sx.Sys
 /-
   `sxmodel`: executes an operation script (the line protocol of harness/sxh.c) on the Lean model
   in closed loop with the Lean chip model and prints the same trace lines the C harness prints.
@@ -168,12 +168,15 @@ def showBus : BusEv → String
   | .wb reg d (.ok _) => s!"WB{toHex reg}:{hexBytes d};"
   | .wb reg d (.error c) => s!"WB{toHex reg}:{hexBytes d}!{toHex c};"
 
-def showCb (c : CbRec) : String :=
-  let e := match c.ev with
-    | .rx d len => s!"rx:{len}:{hexBytes d}"
-    | .tx => "tx"
-    | .cad d => s!"cad:{d}"
-  e ++ (c.reaction.getD "") ++ ";"
+def showCb (names : String × String × String) (c : CbRec) : String :=
+  let (e, name) := match c.ev with
+    | .rx d len => (s!"rx:{len}:{hexBytes d}", names.1)
+    | .tx => ("tx", names.2.1)
+    | .cad d => (s!"cad:{d}", names.2.2)
+  let r := match c.reaction with
+    | some res => "[" ++ name ++ "=" ++ showRes name res ++ "]"
+    | none => ""
+  e ++ r ++ ";"
 
 def b2n (b : Bool) : Nat := if b then 1 else 0
 
@@ -185,8 +188,7 @@ def showHandle (cached : Bool) (h : Handle) (c : Cache) : String :=
   else base
 
 structure St where
-  world : World := {}
-  handle : Option Handle := none
+  sys : Sys := {}
   cached : Bool := true
   cap : Nat := Gen.CONFIG_SX127X_MAX_PACKET_SIZE
   onRx : Option (List String) := none
@@ -194,20 +196,12 @@ structure St where
   onCad : Option (List String) := none
   dead : Bool := false      -- undefined behaviour reached: the rest of the script is not executed
 
-def mkReaction (cap : Nat) (t : List String) : Option Reaction :=
-  match parseApi t with
-  | none => none
-  | some api =>
-    if api.isIrq then none else
-    let name := t.headD ""
-    some { run := fun h => (Api.prog cap execFuel api h).bind fun rh =>
-      Prog.ret ("[" ++ name ++ "=" ++ showRes name rh.1 ++ "]", rh.2) }
+def St.cfg (s : St) : SysCfg :=
+  { cached := s.cached, cap := s.cap,
+    onRx := s.onRx.bind parseApi, onTx := s.onTx.bind parseApi, onCad := s.onCad.bind parseApi }
 
-def St.cfg (s : St) : Cfg :=
-  { cached := s.cached,
-    onRx := s.onRx.bind (mkReaction s.cap),
-    onTx := s.onTx.bind (mkReaction s.cap),
-    onCad := s.onCad.bind (mkReaction s.cap) }
+def St.names (s : St) : String × String × String :=
+  (((s.onRx.getD []).headD ""), ((s.onTx.getD []).headD ""), ((s.onCad.getD []).headD ""))
 
 /-- split a script line into call tokens, scheduled events and faults -/
 def splitLine (toks : List String) : List String × List (Nat × List String) × List (Nat × Code) :=
@@ -242,10 +236,10 @@ def stepLine (s : St) (line : String) : St × Option String :=
   | [] => (s, none)
   | name :: rest =>
     if name = "reset" then
-      ({ s with world := { chip := Chip.init }, handle := none, onRx := none, onTx := none, onCad := none }, some "reset")
+      ({ s with sys := {}, onRx := none, onTx := none, onCad := none }, some "reset")
     else if name = "env" then
       match parseEnv rest with
-      | some e => ({ s with world := { s.world with chip := e.apply s.world.chip } }, some "env")
+      | some e => ({ s with sys := (s.sys.step s.cfg (.env e)).1 }, some "env")
       | none => (s, some ("!model unknown env event " ++ rest.headD ""))
     else if name = "oncb" then
       let r : Option (List String) := if rest.length < 2 ∨ rest.getD 1 "" = "-" then none else some (rest.drop 1)
@@ -254,25 +248,22 @@ def stepLine (s : St) (line : String) : St × Option String :=
         | "tx" => { s with onTx := r }
         | _ => { s with onCad := r }
       (s, some "oncb")
-    else if name = "dump" then (s, some (dumpChip s.world.chip))
+    else if name = "dump" then (s, some (dumpChip s.sys.world.chip))
     else
       match parseApi call with
       | none => (s, some s!"!model unknown op {name}")
       | some api =>
-        let isCreate := name = "create"
-        if s.handle.isNone ∧ !isCreate then (s, some s!"!model op before create: {name}") else
-        let h0 : Handle := s.handle.getD {}
         let sched := evs.filterMap fun (k, t) => (parseEnv t).map fun e => (k, e)
-        let w0 : World := { s.world with xfer := 0, sched := sched, faults := faults, bus := [], cbs := [],
-                                         cache := if isCreate then Cache.fresh else s.world.cache }
-        match exec s.cfg (Api.prog s.cap execFuel api h0) w0 with
-        | .ub u _ => ({ s with dead := true }, some s!"{name} UB {u.name}")
-        | .done (r, h) w =>
-          let out := s!"{name} rc={showRes name r} cb={String.join (w.cbs.reverse.map showCb)} spi={String.join (w.bus.reverse.map showBus)}" ++
-            showHandle s.cached h w.cache ++ s!" uf={w.chip.underflow} of={w.chip.overflow}"
-          -- scheduled events the operation did not reach happen right after it
-          let chip := w.sched.foldl (fun c e => if e.1 ≥ w.xfer then e.2.apply c else c) w.chip
-          ({ s with world := { w with chip := chip, sched := [], faults := [] }, handle := some h }, some out)
+        let (sys', obs) := s.sys.step s.cfg (.api api sched faults)
+        match obs with
+        | .skipped => (s, some s!"!model op before create: {name}")
+        | .env => (s, none)
+        | .ub u => ({ s with sys := sys', dead := true }, some s!"{name} UB {u.name}")
+        | .ret r cbs bus =>
+          let names := s.names
+          let out := s!"{name} rc={showRes name r} cb={String.join (cbs.map (showCb names))} spi={String.join (bus.map showBus)}" ++
+            showHandle s.cached (sys'.handle.getD {}) sys'.world.cache ++ s!" uf={sys'.world.chip.underflow} of={sys'.world.chip.overflow}"
+          ({ s with sys := sys' }, some out)
 
 partial def loop (h : IO.FS.Stream) (out : IO.FS.Stream) (s : St) : IO Unit := do
   let line ← h.getLine
